@@ -98,6 +98,22 @@ Theorem C19_timeout_calls : forall id k, call_ok (CkRetryTimeout k) = true ->
   (retryable_kind k = true -> implements_retry e = true).
 Proof. exact timeout_calls. Qed.
 
+(* ... and on the RETRANSMISSION path (RetryClient.Retry runs the closure queued by queueRetry under
+   requestContext): for every handle the library produces and every number of consecutive timed-out
+   retransmissions, the error handed to OnError is identifiable as RequestTimeoutError, shows
+   context.DeadlineExceeded and still carries a retry handle *)
+Theorem C19_timeout_retx_rounds : forall n eid ceid h, handle_valid h = true ->
+  let e := retx_rounds eid ceid h n in
+  errors_as AsReqTimeout e = true /\ errors_is e (ESent SDeadlineExceeded) = RTrue /\ implements_retry e = true.
+Proof. exact timeout_retx_rounds. Qed.
+
+(* the scenarios run on the real RetryClient: QoS 1, QoS 2 (either phase), Subscribe, Unsubscribe
+   interrupted once by the peer closing, then one or two timed-out retransmissions *)
+Theorem C19_timeout_retx_calls : forall id k p2 n, call_ok (CkRetryRetx k p2 n) = true ->
+  let e := call_error id (CkRetryRetx k p2 n) ENil in
+  errors_as AsReqTimeout e = true /\ errors_is e (ESent SDeadlineExceeded) = RTrue /\ implements_retry e = true.
+Proof. exact timeout_retx_calls. Qed.
+
 (* "a cancelled caller context's error": Publish (QoS 1, QoS 2 both phases), Subscribe, Unsubscribe,
    Ping, Connect of BaseClient and RetryClient.Ping with or without ResponseTimeout, interrupted by
    their context, return an error in which errors.Is finds ctx.Err() *)
@@ -157,6 +173,8 @@ Print Assumptions C19_eof_unwrapped.
 Print Assumptions C19_eof_only_bare.
 Print Assumptions C19_timeout_identifiable.
 Print Assumptions C19_timeout_calls.
+Print Assumptions C19_timeout_retx_rounds.
+Print Assumptions C19_timeout_retx_calls.
 Print Assumptions C19_ctx_error_found.
 Print Assumptions C19_retry_keeps_cause.
 Print Assumptions C19_retry_refines_protocol.
